@@ -90,16 +90,16 @@ theorem log_gap (X u : ℝ) (hX : 0 < X) (hu0 : 0 < u) (hu1 : u ≤ 1)
 
 /-- the error budget of `log` is below `10^-35 / 2` -/
 theorem errLog_small (K : ℕ) (m S F : ℝ) (hK : K ≤ 16057) (hm : m ≤ 1) (hF0 : 0 ≤ F)
-    (hF : F ≤ 1 / 20) (hS : S ≤ 2 * F) : LogAcc.errLog K m S F < 1 / 10 ^ 35 / 2 := by
+    (hF : F ≤ 1 / 20) (hS : S ≤ 101 / 100 * F) : LogAcc.errLog K m S F < 1 / 10 ^ 35 / 2 := by
   unfold LogAcc.errLog
   have h1 := LogAcc.tailR_le F hF0 hF
-  have h2 : F ^ 27 ≤ (1 / 20) ^ 27 := pow_le_pow_left₀ hF0 hF 27
+  have h2 : F ^ 35 ≤ (1 / 20) ^ 35 := pow_le_pow_left₀ hF0 hF 35
   have hKr : (K : ℝ) ≤ 16057 := by exact_mod_cast hK
-  have h3 : (16 * (K : ℝ) + 7 * m + 70 * S) / 10 ^ 57 ≤ (16 * 16057 + 7 + 7) / 10 ^ 57 := by
+  have h3 : (16 * (K : ℝ) + 7 * m + 231 * S) / 10 ^ 57 ≤ (16 * 16057 + 7 + 12) / 10 ^ 57 := by
     apply div_le_div_of_nonneg_right _ (by positivity); linarith
-  have h4 : 2 * ((1 / 20 : ℝ) ^ 27 / 26) + (16 * 16057 + 7 + 7) / 10 ^ 57 < 1 / 10 ^ 35 / 2 := by
+  have h4 : 2 * ((1 / 20 : ℝ) ^ 35 / 34) + (16 * 16057 + 7 + 12) / 10 ^ 57 < 1 / 10 ^ 35 / 2 := by
     norm_num
-  have h5 : F ^ 27 / 26 ≤ (1 / 20 : ℝ) ^ 27 / 26 := div_le_div_of_nonneg_right h2 (by norm_num)
+  have h5 : F ^ 35 / 34 ≤ (1 / 20 : ℝ) ^ 35 / 34 := div_le_div_of_nonneg_right h2 (by norm_num)
   linarith
 
 open D192 in
@@ -191,10 +191,10 @@ theorem d192_log_nonneg_triple (hdiv : DivSpec) (d : Gen.decomposed192) :
   case inv2 | inv4 | inv6 => exact ⇓ x => match x with
     | .inl st => ⌜st.sig.toNat ≠ 0⌝
     | .inr st => ⌜st.sig.toNat ≠ 0⌝
-  case inv7 | inv9 | inv11 | inv13 => exact fun st => ⟨30 - st.2.2.2.toNat⟩
+  case inv7 | inv9 | inv11 | inv13 => exact fun st => ⟨40 - st.2.2.2.toNat⟩
   case inv8 | inv10 | inv12 | inv14 => exact ⇓ x => match x with
-    | .inl st => ⌜3 ≤ st.2.2.2.toNat ∧ st.2.2.2.toNat ≤ 27 ∧ (st.2.2.1.sig.toNat ≠ 0 ∨ st.1 ≠ -1)⌝
-    | .inr st => ⌜3 ≤ st.2.2.2.toNat ∧ st.2.2.2.toNat ≤ 27 ∧ (st.2.2.1.sig.toNat ≠ 0 ∨ st.1 ≠ -1)⌝
+    | .inl st => ⌜3 ≤ st.2.2.2.toNat ∧ st.2.2.2.toNat ≤ 35 ∧ (st.2.2.1.sig.toNat ≠ 0 ∨ st.1 ≠ -1)⌝
+    | .inr st => ⌜3 ≤ st.2.2.2.toNat ∧ st.2.2.2.toNat ≤ 35 ∧ (st.2.2.1.sig.toNat ≠ 0 ∨ st.1 ≠ -1)⌝
   all_goals (simp +zetaDelta [logExp] at *)
   all_goals (try subst_vars)
   all_goals d192_prep
